@@ -91,6 +91,31 @@ func VerifC02HandlerPaging(h *verifh.H) {
 			h.Assert(len(again2) == 0, "the token of the last page returns nothing :: "+what)
 		}
 	}
+	// the feed read backwards (reverse=true) with the same limits: the reversed feed, page by page,
+	// ending with an empty page or no token
+	fwd, _ := read("changes", map[string]string{})
+	var rev []string
+	tok := ""
+	for page := 0; page < 8; page++ {
+		q := map[string]string{"reverse": "true", "limit": limit}
+		if tok != "" {
+			q["since"] = tok
+		}
+		got, next := read("changes", q)
+		if len(got) == 0 {
+			break
+		}
+		rev = append(rev, got...)
+		if next == "" || next == tok {
+			break
+		}
+		tok = next
+	}
+	var want []string
+	for k := len(fwd) - 1; k >= 0; k-- {
+		want = append(want, fwd[k])
+	}
+	h.Assert(strings.Join(rev, ",") == strings.Join(want, ","), "reading the feed backwards with a limit and the returned tokens yields the reversed feed, nothing skipped or repeated :: limit="+limit+" got="+strings.Join(rev, ",")+" want="+strings.Join(want, ","))
 	// ... and exactly the new entries after one more write of a brand-new entity
 	_, endChanges := read("changes", map[string]string{})
 	_, endEntities := read("entities", map[string]string{})
